@@ -76,6 +76,21 @@ def classify(ctx: HandlerContext) -> Classification:
         flag_desc = FLAG_DISPLAY.get(exec_flag, exec_flag)
         return Classification("ask", description=f"fd {flag_desc} (no command)")
 
+    # A lone ';' ends the command; what follows are fd's own arguments again
+    if ";" in inner_tokens or "\\;" in inner_tokens:
+        cut = min(inner_tokens.index(t) for t in (";", "\\;") if t in inner_tokens)
+        rest = classify(HandlerContext(["fd"] + inner_tokens[cut + 1 :], cwd=ctx.cwd))
+        inner_tokens = inner_tokens[:cut]
+        if not inner_tokens or rest.action == "ask":
+            return Classification("ask", description="fd --exec")
+        if rest.action == "delegate":
+            inner_cmd = " ".join(bash_quote(t) for t in inner_tokens)
+            return Classification(
+                "delegate",
+                inner_command=inner_cmd + "; " + rest.inner_command,
+                description=f"fd --exec {inner_tokens[0]}",
+            )
+
     # Delegate to inner command check
     inner_cmd = " ".join(bash_quote(t) for t in inner_tokens)
     flag_desc = FLAG_DISPLAY.get(exec_flag, exec_flag)
